@@ -232,7 +232,11 @@ func checkCtor(c CtorCase) *vk.Violation {
 
 var reg = vk.Registry{
 	"auth": func(raw json.RawMessage) *vk.Violation { var c Case; _ = json.Unmarshal(raw, &c); return check(c) },
-	"ctor": func(raw json.RawMessage) *vk.Violation { var c CtorCase; _ = json.Unmarshal(raw, &c); return checkCtor(c) },
+	"ctor": func(raw json.RawMessage) *vk.Violation {
+		var c CtorCase
+		_ = json.Unmarshal(raw, &c)
+		return checkCtor(c)
+	},
 }
 
 func TestReplay(t *testing.T) { vk.RunReplay(t, reg) }
